@@ -13,5 +13,6 @@ Definition run (comp : N) (inp : list N) : list N :=
   | 16 => run_broadcast inp
   | 18 => run_io inp
   | 12 => run_rtc inp
+  | 19 => run_rtc inp
   | _ => [97]
   end.
